@@ -70,12 +70,12 @@ func (s *SimpleAuthCtx) check(streamName string, urlParam string) error {
 	if v == "" {
 		return base.ErrSimpleAuthParamNotFound
 	}
-	v = strings.ToLower(v)
-
 	// 注意，只有DangerousLalSecret配置了值，才验证参数是否和DangerousLalSecret相等
-	if len(s.config.DangerousLalSecret) != 0 && v == s.config.DangerousLalSecret {
+	// DangerousLalSecret是配置文件中的原始字符串（可能包含大写字母），所以需要用转小写之前的值也比较一次
+	if len(s.config.DangerousLalSecret) != 0 && (v == s.config.DangerousLalSecret || strings.ToLower(v) == s.config.DangerousLalSecret) {
 		return nil
 	}
+	v = strings.ToLower(v)
 
 	se := SimpleAuthCalcSecret(s.config.Key, streamName)
 	if v == se {
